@@ -11,7 +11,7 @@ SUITE=$(cd "$W" && go test -vet=off -count=1 ./... 2>&1 | grep -c "^FAIL\|^---")
 echo "existing suite failures: $SUITE"
 cd "$(dirname "$0")/.."
 for P in "$@"; do
-  OUT=$(VERIF_REPO="$W" ./check "$P" 2>&1)
+  OUT=$(VERIF_REPO="$W" VERIF_EVIDENCE_DIR="$W/.evidence" ./check "$P" 2>&1)
   RC=$?
   echo "$P exit=$RC :: $(echo "$OUT" | grep -c '^VIOLATION') violation line(s) :: $(echo "$OUT" | grep '^VIOLATION' | head -1 | cut -c1-110) :: $(echo "$OUT" | grep -A1 '^VIOLATION' | grep -v '^VIOLATION' | head -1 | cut -c1-160)"
 done
